@@ -22,7 +22,7 @@ CFGS = {
     "quick": ["MC_paths_u3.cfg", "MC_paths_loops.cfg"],
     "thorough": ["MC_paths_u3.cfg", "MC_paths_u3t4.cfg", "MC_paths_d3.cfg", "MC_paths_loops.cfg", "MC_paths_sparse4.cfg"],
 }
-PLABS = ["int", "zero", "str", "neg", "big"]
+PLABS = ["int", "zero", "str", "neg", "big", "under", "tuple", "mixed"]
 
 
 def _graphs(chk, cfg):
@@ -38,8 +38,8 @@ def _graphs(chk, cfg):
     return out
 
 
-def _build(directed, triples, L, rng):
-    g = core.new_graph(directed, True)
+def _ops(directed, triples, rng):
+    """the runs of the graph as add_interaction calls (interval or point adds), pairs in a seeded order"""
     per = {}
     for (a, b, t) in triples:
         if not directed and a > b:
@@ -47,6 +47,7 @@ def _build(directed, triples, L, rng):
         per.setdefault((a, b), set()).add(t)
     items = list(per.items())
     rng.shuffle(items)
+    ops = []
     for (a, b), ts in items:
         ts = sorted(ts)
         i = 0
@@ -54,11 +55,22 @@ def _build(directed, triples, L, rng):
             j = i
             while j + 1 < len(ts) and ts[j + 1] == ts[j] + 1:
                 j += 1
-            if j > i or rng.random() < 0.5:
-                g.add_interaction(L.node(a), L.node(b), t=L.time(ts[i]), e=L.time(ts[j] + 1))
-            else:
-                g.add_interaction(L.node(a), L.node(b), t=L.time(ts[i]))
+            ops.append((a, b, ts[i], ts[j] + 1 if (j > i or rng.random() < 0.5) else None))
             i = j + 1
+    return ops
+
+
+def _apply(g, L, ops):
+    for (a, b, t, e) in ops:
+        if e is None:
+            g.add_interaction(L.node(a), L.node(b), t=L.time(t))
+        else:
+            g.add_interaction(L.node(a), L.node(b), t=L.time(t), e=L.time(e))
+
+
+def _build(directed, triples, L, rng):
+    g = core.new_graph(directed, True)
+    _apply(g, L, _ops(directed, triples, rng))
     return g
 
 
@@ -118,7 +130,8 @@ def _dag(g, L, known, u, v, s, e):
     try:
         root = L.node(u)
         q["edges"] = [[_occ(L, names, a), _occ(L, names, b)] for a, b in DG.edges()]
-        q["dnodes"] = [_occ(L, names, n) for n in DG.nodes() if not (n == root and not isinstance(n, str)) and "_" in str(n)]
+        # the library keeps the raw root id as an isolated node of the DAG: it is no occurrence
+        q["dnodes"] = [_occ(L, names, n) for n in DG.nodes() if not (n == root and DG.degree(n) == 0)]
         q["sources"] = [_occ(L, names, n) for n in src]
         q["targets"] = [_occ(L, names, n) for n in tgt]
         q["res"] = "ok"
@@ -128,16 +141,10 @@ def _dag(g, L, known, u, v, s, e):
     return q
 
 
-def job_graph(job):
-    seed, directed, triples, lab, tier, nodes = job
-    rng = random.Random(seed)
-    np.random.seed(seed % (2 ** 32))
-    known = list(nodes)
-    L = core.labeling(lab).prime(max(known) + 1)
-    g = _build(directed, triples, L, rng)
+def _paths_line(g, L, known, grid, triples, tier, rng, directed):
+    """one 'paths' line: the observation of g and every (u, v, window) query on it"""
+    lo, hi = grid
     ts = sorted({t for (_, _, t) in triples})
-    lo, hi = (min(ts) - 1, max(ts) + 2) if ts else (-1, 2)
-    grid = (lo, hi)
     obs = core.observe(g, L, known, grid)
     qs = []
     wins = [(NoT, NoT)] + [(s, e) for s in range(lo, hi) for e in range(lo, hi)]
@@ -161,9 +168,52 @@ def job_graph(job):
     for (s, e) in (valid if tier == "thorough" else valid[:3]):
         for m in [NoT] + (ts if tier == "thorough" else ts[:1]):
             qs.append(_atrp(g, L, s, e, m))
+    return {"op": "paths", "fork": False, "res": "ok", "triples": [list(t) for t in triples], "obs": obs, "qs": qs}
+
+
+def job_graph(job):
+    """One graph of the domain on one real object.  A seeded share of the jobs queries the *same object* at several points
+    of its life: after a chronological prefix of its runs, after all of them, and after clear() + a refill with a
+    node-permuted copy of the graph (same numbers of nodes, pairs and snapshot ids): results may never depend on what an
+    earlier query saw."""
+    seed, directed, triples, lab, tier, nodes = job
+    rng = random.Random(seed)
+    np.random.seed(seed % (2 ** 32))
+    known = list(nodes)
+    L = core.labeling(lab).prime(max(known) + 1)
+    ts = sorted({t for (_, _, t) in triples})
+    grid = (min(ts) - 1, max(ts) + 2) if ts else (-1, 2)
     head = {"op": "new", "dir": bool(directed), "rem": True, "fork": False, "res": "ok", "lab": lab,
             "obs": core.observe(core.new_graph(directed, True), L, known, grid)}
-    return [head, {"op": "paths", "fork": False, "res": "ok", "triples": [list(t) for t in triples], "obs": obs, "qs": qs}]
+    lines = [head]
+    ops = _ops(directed, triples, rng)
+    g = core.new_graph(directed, True)
+    staged = len(ops) >= 2 and rng.random() < 0.4
+    if staged:
+        # chronological growth: runs sorted by their start (stable: the order of a pair's own runs is kept)
+        ops.sort(key=lambda o: o[2])
+        k = rng.randint(1, len(ops) - 1)
+        _apply(g, L, ops[:k])
+        part = set()
+        for (a, b, t, e) in ops[:k]:
+            for x in range(t, e if e is not None else t + 1):
+                part.add((a, b, x))
+                if not directed:
+                    part.add((b, a, x))
+        lines.append(_paths_line(g, L, known, grid, sorted(part), "quick", rng, directed))
+        _apply(g, L, ops[k:])
+    else:
+        _apply(g, L, ops)
+    lines.append(_paths_line(g, L, known, grid, triples, tier, rng, directed))
+    if staged and rng.random() < 0.6:
+        perm = list(known)
+        rng.shuffle(perm)
+        pm = dict(zip(known, perm))
+        tr2 = sorted({(pm[a], pm[b], t) for (a, b, t) in triples})
+        g.clear()
+        _apply(g, L, _ops(directed, tr2, rng))
+        lines.append(_paths_line(g, L, known, grid, tr2, "quick", rng, directed))
+    return lines
 
 
 def run(prop, tier, seed):
@@ -199,12 +249,12 @@ def run(prop, tier, seed):
     chk.assumptions = [
         "TLC, the CommunityModules and the JSON bridge are correct",
         "the reference path set is computed by TLC (AllPaths in spec/Paths.tla) from the has_interaction table and snapshot ids "
-        "observed on the real graph; node names of the DAG are decoded by splitting at the last '_' (ids containing '_' are outside "
-        "the property)",
+        "observed on the real graph; occurrence names of the DAG are decoded by splitting str(name) at the last '_' and looking "
+        "str(node id) up among the known nodes (ids may themselves contain '_')",
         "sample < 1 draws from numpy's global RNG, seeded per graph",
     ]
     rule = ("every temporal graph of the TLC domain(s) %s is built on the real class (runs added in a seeded order, as interval or "
-            "point adds) under int / str / negative / large labelings; for every root u present in the graph, every target v "
+            "point adds) under int / 0-based / str / negative / large / '_'-containing str / tuple / mixed-type labelings; for every root u present in the graph, every target v "
             "(omitted, each node incl. v = u) and windows over the grid (defaults, valid, invalid, start > end) the real "
             "time_respecting_paths (sample 1 and 0.5), temporal_dag and all_time_respecting_paths (min_t omitted / each id) are "
             "called; plus seeded random graphs with 4-6 nodes. Non-trivial = graph with at least one interaction; distinct = "
